@@ -71,7 +71,7 @@ def replay(w):
             fr = check_fn.fresh_call(wd, sc, j)
             return check_fn.ot(fr) != got
         return got == check_fn.ot(w["impl"])
-    if kind in ("dep-rank", "fn-dep"):
+    if kind in ("dep-rank", "fn-dep", "fn-dep-order"):
         # replayed through the stream that found it: the class must still be producible; a cheap proxy is to
         # re-run the recorded scenario's generator-independent core
         import check_dep_replay
